@@ -121,32 +121,62 @@ def gen_sparse(rng, force_over=False):
     return "sparse in %s %s" % (body, L([hx(u) for u in us]))
 
 
+def unit_dyadic(rng, n):
+    while True:
+        p = dyadic_vec(rng, n)
+        if sum(p) == 1:
+            return p
+
+
+def zero_first(rng, p):
+    """put a zero entry at index 0 (the default alias of an unassigned cell) when there is one"""
+    z = [i for i, x in enumerate(p) if x == 0]
+    if z and rng.random() < 0.7:
+        i = rng.choice(z)
+        p[0], p[i] = p[i], p[0]
+    return p
+
+
 def gen_alias(rng):
+    """dy: n a power of two, dyadic entries (bit-exact tables); g: any n.  About half of the vectors
+       have a sum off one by k*2^-23 / k*1e-7 (|.| <= 1e-6: still accepted by isProbability)."""
     if rng.random() < 0.5:
         n = rng.choice([1, 2, 4, 4, 8, 8])
-        while True:
-            p = dyadic_vec(rng, n)
-            if sum(p) == 1:
-                break
+        p = zero_first(rng, unit_dyadic(rng, n))
+        if rng.random() < 0.5:
+            k = F(rng.randint(1, 8) * rng.choice([-1, -1, 1]), 2 ** 23)
+            nz = [i for i, x in enumerate(p) if x + k >= 0 and x > 0]
+            if nz:
+                p[rng.choice(nz)] += k
         regime = "dy"
         toks = [fq(x) for x in p]
     else:
         n = rng.choice([3, 3, 5, 6, 7, 9, 10, 11, 12])
         if rng.random() < 0.5:
-            while True:
-                p = dyadic_vec(rng, n)
-                if sum(p) == 1:
-                    break
+            p = zero_first(rng, unit_dyadic(rng, n))
+            if rng.random() < 0.5:
+                k = F(rng.randint(1, 8) * rng.choice([-1, -1, 1]), 2 ** 23)
+                nz = [i for i, x in enumerate(p) if x + k >= 0 and x > 0]
+                if nz:
+                    p[rng.choice(nz)] += k
             toks = [fq(x) for x in p]
         else:
             w = [rng.randint(0, 9) for _ in range(n)]
             if sum(w) == 0:
-                w[0] = 1
-            s = float(sum(w))
-            toks = [hx(x / s) for x in w]
+                w[-1] = 1
+            if rng.random() < 0.6:
+                w[0] = 0
+                if sum(w) == 0:
+                    w[-1] = 1
+            sm = float(sum(w))
+            q = [x / sm for x in w]
+            if rng.random() < 0.6:
+                nz = [i for i, x in enumerate(q) if x > 1e-3]
+                q[rng.choice(nz)] += rng.randint(1, 9) * 1e-7 * rng.choice([-1, -1, 1])
+            toks = [hx(x) for x in q]
         regime = "g"
     us = sorted({0.0, TOP, 0.5} | {rng.randrange(2 ** 53) / 2.0 ** 53 for _ in range(8)} |
-                {k / float(n) for k in range(n)})
+                {k / float(n) for k in range(n)} | {math.nextafter((k + 1) / float(n), 0.0) for k in range(n)})
     us = [u for u in us if 0.0 <= u < 1.0]
     return "alias %s %s %s" % (regime, L(toks), L([hx(u) for u in us]))
 
@@ -166,7 +196,7 @@ def gen_randp(rng):
 
 def gen_proj(rng):
     n = rng.randint(1, 8)
-    mode = rng.choice(["valid", "valid", "one", "zero", "neg", "big", "small", "small", "big"])
+    mode = rng.choice(["valid", "valid", "one", "zero", "neg", "big", "small", "small", "big", "signed", "signed"])
     if mode == "valid":
         v = dyadic_vec(rng, n)
     elif mode == "one":
@@ -176,6 +206,17 @@ def gen_proj(rng):
         v = [rng.choice([F(0), F(0), F(-1), F(-3, 2), F(1, 2 ** 21)]) for _ in range(n)]
         if all(x < 0 for x in v):
             v[rng.randrange(n)] = F(0)
+    elif mode == "signed":
+        # negative entries, but the SIGNED total is one (+- 2^-20): e.g. (-1/2, 3/4, 3/4), (2, -1, 0)
+        n = max(n, 2)
+        neg = [F(-rng.randint(1, 12), 8) for _ in range(rng.randint(1, n - 1))]
+        pos = [F(rng.randint(0, 8), 8) for _ in range(n - len(neg))]
+        pos[rng.randrange(len(pos))] += 1 - sum(neg) - sum(pos) + rng.choice([0, 0, F(1, 2 ** 20), -F(1, 2 ** 20)])
+        if min(pos) < 0:
+            pos = [x - min(pos) for x in pos]
+            pos[0] += 1 - sum(neg) - sum(pos)
+        v = neg + pos
+        rng.shuffle(v)
     elif mode == "neg":
         v = [F(-rng.randint(1, 16), 8) for _ in range(n)]
     elif mode == "big":
@@ -195,21 +236,41 @@ def gen_proj(rng):
     return "proj %s %s" % (tag, L([fq(x) for x in v]))
 
 
-def gen_sr(rng):
-    variant = rng.choice(["dense", "sparse", "pomdp"])
-    S, A = rng.randint(1, 5), rng.randint(1, 3)
-    O = rng.randint(1, 4) if variant == "pomdp" else 0
+SR_VARIANTS = ["mdp.d", "mdp.s", "pomdp.dd", "pomdp.ds", "pomdp.sd", "pomdp.ss"]
 
-    def dist(n):
-        while True:
-            p = dyadic_vec(rng, n)
-            if sum(p) == 1:
-                return p
-    T = [fq(x) for a in range(A) for s in range(S) for x in dist(S)]
-    R = [fq(F(rng.randint(-16, 16), 4)) for _ in range(S * A)]
-    Ob = [fq(x) for a in range(A) for s1 in range(S) for x in dist(O)] if O else []
-    return "sr %s %d %d %d %s %d %d %d %d" % (variant, S, A, O, " ".join(T + R + Ob), rng.randrange(S), rng.randrange(A),
-                                             rng.choice([4, 8, 16]), rng.randrange(2 ** 31))
+
+def model_row(rng, n):
+    """a row isProbability accepts: sums to one, or one minus 2^-20; may contain entries of 2^-20 / 2^-21
+       (<= 1e-6: dropped by the sparse classes) so that the STORED mass is below one"""
+    p = unit_dyadic(rng, n)
+    r = rng.random()
+    big = max(range(n), key=lambda i: p[i])
+    if r < 0.3:
+        p[big] -= F(1, 2 ** 20)                      # slack in the row itself
+    elif r < 0.6 and n > 1:
+        for i in rng.sample([i for i in range(n) if i != big], rng.randint(1, min(2, n - 1))):
+            if p[i] == 0:
+                t = F(1, 2 ** rng.choice([20, 21]))
+                p[i] += t; p[big] -= t               # tiny entries, row still sums to one
+    return p
+
+
+def gen_sr(rng):
+    variant = rng.choice(SR_VARIANTS)
+    pomdp = variant.startswith("pomdp")
+    S, A = rng.randint(1, 5), rng.randint(1, 3)
+    O = rng.choice([o for o in range(1, 6) if o != S]) if pomdp else 0
+    T = [model_row(rng, S) for a in range(A) for s in range(S)]
+    R = [fq(F(rng.choice([-12, -5, -1, 1, 2, 7, 16]), 4)) for _ in range(S * A)]
+    Ob = [model_row(rng, O) for a in range(A) for s1 in range(S)] if pomdp else []
+    s, a = rng.randrange(S), rng.randrange(A)
+    edge = F(1) - F(1, 2 ** 20)
+    pool = [0.0, TOP, TOP, float(edge), math.nextafter(float(edge), 0.0), math.nextafter(float(edge), 2.0),
+            1 - 2.0 ** -19, math.nextafter(1 - 2.0 ** -19, 0.0), 1 - 2.0 ** -21, 0.5]
+    k = rng.choice([4, 8]) * (3 if pomdp else 1)
+    us = [rng.choice(pool) if rng.random() < 0.6 else rng.randrange(2 ** 53) / 2.0 ** 53 for _ in range(k)]
+    flat = lambda rows: " ".join(fq(x) for row in rows for x in row)
+    return "sr %s %d %d %d %s %s %s %d %d %s" % (variant, S, A, O, flat(T), " ".join(R), flat(Ob), s, a, L([hx(u) for u in us]))
 
 
 def gen(rng, tier):
@@ -221,6 +282,6 @@ def gen(rng, tier):
     for _ in range(110 * scale): out.append(gen_alias(rng))
     for _ in range(60 * scale): out.append(gen_randp(rng))
     for _ in range(70 * scale): out.append(gen_proj(rng))
-    for _ in range(60 * scale): out.append(gen_sr(rng))
+    for _ in range(90 * scale): out.append(gen_sr(rng))
     rng.shuffle(out)
     return out
